@@ -9,8 +9,10 @@ import hashlib
 import itertools
 import logging
 import os
+import pickle
 import random
 import re
+from copy import deepcopy
 
 import networkx as nx
 
@@ -46,7 +48,68 @@ BUILTIN_NAMES = ['has_root', 'has_one_root', 'has_no_cycle', 'has_no_isolated_co
                  'has_no_self_cycled_nodes', 'has_no_isolated_nodes']   # index = bK of the preamble
 MUTATIONS = {'drop': 'MDropLast', 'cut': 'MCutFirst', 'rename': 'MRename'}
 BUILTIN_CTORS = ['HasRoot', 'HasOneRoot', 'NoCycle', 'NoIsoComponents', 'NoSelfCycled', 'NoIsoNodes']
-ADAPTERS = {'I': IdentityAdapter, 'Dr': DirectAdapter, 'X': BaseNetworkxAdapter}
+class DomainGraph(OptGraph):
+    """a domain graph class of a user: an OptGraph with a domain API"""
+
+    def domain_size(self):
+        return self.length
+
+
+class DomainNode(OptNode):
+    """a domain node class of a user"""
+
+
+class DomainDiGraph(nx.DiGraph):
+    """a user's own NetworkX graph class"""
+
+
+class SubIdentityAdapter(IdentityAdapter):
+    """user adapter: the optimiser works on the graphs as they are, domain code sees DomainGraph copies"""
+
+    def _restore(self, opt_graph, metadata=None):
+        obj = deepcopy(opt_graph)
+        obj.__class__ = DomainGraph
+        return obj
+
+
+class SubDirectAdapter(DirectAdapter):
+    """user adapter derived from DirectAdapter: configures its classes itself and overrides both directions"""
+
+    def __init__(self):
+        super().__init__(base_graph_class=DomainGraph, base_node_class=DomainNode)
+
+    def _restore(self, opt_graph, metadata=None):
+        obj = super()._restore(opt_graph, metadata)
+        obj.restored_by = 'SubDirectAdapter'
+        return obj
+
+    def _adapt(self, adaptee):
+        return super()._adapt(adaptee)
+
+
+class SubNxAdapter(BaseNetworkxAdapter):
+    """user adapter derived from the NetworkX adapter: hands out / takes in the user's DiGraph subclass"""
+
+    def _restore(self, opt_graph, metadata=None):
+        return DomainDiGraph(super()._restore(opt_graph, metadata))
+
+    def _adapt(self, adaptee):
+        return super()._adapt(nx.DiGraph(adaptee))
+
+
+def _direct_with_classes():
+    return DirectAdapter(base_graph_class=DomainGraph, base_node_class=DomainNode)
+
+
+ADAPTERS = {'I': IdentityAdapter, 'Dr': DirectAdapter, 'X': BaseNetworkxAdapter,
+            'IdS': SubIdentityAdapter, 'DrC': _direct_with_classes, 'DrS': SubDirectAdapter, 'XS': SubNxAdapter}
+# the adapter of the model each of them corresponds to (restore = same object / structural copy / DiGraph)
+COQ_AD = {'I': 'I', 'Dr': 'Dr', 'X': 'X', 'IdS': 'Dr', 'DrC': 'Dr', 'DrS': 'Dr', 'XS': 'X'}
+# classes of the restored domain graph and of its nodes
+EXPECT = {'I': (OptGraph, OptNode), 'Dr': (OptGraph, OptNode), 'IdS': (DomainGraph, OptNode),
+          'DrC': (DomainGraph, DomainNode), 'DrS': (DomainGraph, DomainNode)}
+EXPECT_NX = {'X': nx.DiGraph, 'XS': DomainDiGraph}
+TRAVELS = ['deepcopy', 'pickle', 'pickle-adapter', 'deepcopy-adapter']
 OUTCOMES = ['RTrue', 'RFalse', 'RNone', 'RValueError', 'ROther']
 _adapters = {}
 
@@ -245,9 +308,19 @@ def configs_for(rng, par, all_subsets, n_subsets, n_user, gid):
             via = rng.choice(['direct', 'direct', 'params-list', 'params-tuple'] +
                              (['params-default', 'params-default'] if rules == 'DEFAULT' else []))
         full.append((kind, ad, rf, rules, via))
+    full = [c + ('none',) for c in full]
+    # user adapters (subclasses overriding _restore / _adapt), DirectAdapter with the user's classes, and verifiers /
+    # adapters that went through pickle or deepcopy before use (rules then are module-level picklable objects)
+    for k in range(6 if all_subsets else 2):
+        ad = ['IdS', 'DrC', 'DrS', 'XS', 'DrC', 'IdS'][(gid + k) % 6] if k % 2 == 0 else rng.choice(list(ADAPTERS))
+        travel = rng.choice(['none'] + TRAVELS) if k % 2 == 0 else rng.choice(TRAVELS)
+        rules = rand_user_config(rng, n_edges)
+        if travel == 'pickle':
+            rules = [r if r[0] == 'b' else [r[0], r[1], r[2], 'picklable'] for r in rules]
+        full.append(('adapter-variant', ad, rng.random() < 0.4, rules, 'direct', travel))
     # the boundary value: an explicitly EMPTY rule collection
     for via in (['params-list', 'params-tuple', 'direct'] if all_subsets else [['params-list', 'params-tuple'][gid % 2]]):
-        full.append(('no-rules', rng.choice(ads), False, [], via))
+        full.append(('no-rules', rng.choice(ads), False, [], via, 'none'))
     return full
 
 
@@ -272,16 +345,25 @@ def _emit(outcome, idx):
     raise (TypeError, KeyError, RuntimeError)[idx % 3]('user rule %d is broken' % idx)
 
 
-def describe(x, graph):
+def describe(x, graph, tag='I'):
+    """what a user rule saw: ['opt', is-the-verified-object, structure] for the internal graph or a restored
+    graph of the adapter's domain classes, ['nx', n, edges] for the adapter's NetworkX class, else ['other', type]"""
     if isinstance(x, nx.DiGraph):
+        if type(x) is not EXPECT_NX.get(tag):
+            return ['other', type(x).__name__]
         pos = {n.uid: i for i, n in enumerate(graph.nodes)}
         nodes = [pos.get(u, 99999) for u in x.nodes]
         edges = sorted((pos.get(a, 99999), pos.get(b, 99999)) for a, b in x.edges)
         if sorted(nodes) != list(range(len(nodes))):
             return ['nx', 99999, []]
         return ['nx', x.number_of_nodes(), [list(e) for e in edges]]
-    if type(x) is OptGraph:
-        return ['opt', x is graph, structure(x)]
+    if x is graph:
+        return ['opt', True, structure(x)]
+    if isinstance(x, OptGraph):
+        graph_cls, node_cls = EXPECT.get(tag, (None, None))
+        if type(x) is graph_cls and all(type(n) is node_cls for n in x.nodes):
+            return ['opt', False, structure(x)]
+        return ['other', '%s of %s' % (type(x).__name__, sorted({type(n).__name__ for n in x.nodes}))]
     return ['other', type(x).__name__]
 
 
@@ -322,31 +404,54 @@ def mutate_arg(x, how):
             n.content['name'] = 'renamed'
 
 
+def apply_behaviour(idx, behaviour, x):
+    if behaviour[0] == 'const':
+        return _emit(behaviour[1], idx)
+    if behaviour[0] == 'nested':
+        # composite rule: an inner verifier that raises on failure; a domain rule written for NetworkX graphs
+        # first adapts its argument back to an optimisation graph
+        inner = GraphVerifier([builtin(i) for i in behaviour[1]], raise_on_failure=True)
+        return inner(adapter_of('X').adapt(nx.DiGraph(x)) if isinstance(x, nx.DiGraph) else x)
+    if behaviour[0] == 'mutate':
+        mutate_arg(x, behaviour[1])
+        return _emit(behaviour[2], idx)
+    if behaviour[0] == 'nodes':
+        size = x.number_of_nodes() if isinstance(x, nx.DiGraph) else x.length
+    else:
+        size = count_edges(x)
+    if size <= behaviour[1]:
+        return True
+    return _emit(behaviour[2], idx)
+
+
+# the calls of the user rules of the session in progress (module level, so that rules that went through pickle
+# still report here) and [the graph being verified, the adapter tag]
+CALL_LOG = []
+CURRENT = [None, 'I']
+
+
+class PicklableRule:
+    """a module-level rule object: survives pickle.dumps / loads together with its native flag"""
+
+    def __init__(self, idx, behaviour):
+        self.idx, self.behaviour = idx, behaviour
+
+    def __call__(self, x):
+        CALL_LOG.append([self.idx, describe(x, CURRENT[0], CURRENT[1])])
+        return apply_behaviour(self.idx, self.behaviour, x)
+
+
 def make_user_rule(idx, native, behaviour, log, cur, form='function', family=None):
     """cur[0] = the graph being verified (a verifier instance may be used for several graphs); family = the
     session's shared function / class for the 'family-*' presentations"""
     family = {} if family is None else family
     def body(x):
-        log.append([idx, describe(x, cur[0])])
-        if behaviour[0] == 'const':
-            return _emit(behaviour[1], idx)
-        if behaviour[0] == 'nested':
-            # composite rule: an inner verifier that raises on failure; a domain rule written for NetworkX graphs
-            # first adapts its argument back to an optimisation graph
-            inner = GraphVerifier([builtin(i) for i in behaviour[1]], raise_on_failure=True)
-            return inner(adapter_of('X').adapt(x) if isinstance(x, nx.DiGraph) else x)
-        if behaviour[0] == 'mutate':
-            mutate_arg(x, behaviour[1])
-            return _emit(behaviour[2], idx)
-        if behaviour[0] == 'nodes':
-            size = x.number_of_nodes() if isinstance(x, nx.DiGraph) else x.length
-        else:
-            size = count_edges(x)
-        if size <= behaviour[1]:
-            return True
-        return _emit(behaviour[2], idx)
+        log.append([idx, describe(x, cur[0], cur[1])])
+        return apply_behaviour(idx, behaviour, x)
 
-    if form.startswith('partial') and not form.endswith('object'):
+    if form == 'picklable':
+        presented = underlying = PicklableRule(idx, behaviour)
+    elif form.startswith('partial') and not form.endswith('object'):
         def inner(x, unused=None):
             return body(x)
         presented = functools.partial(inner, unused=idx)
@@ -434,8 +539,10 @@ class Session:
     """ONE GraphVerifier instance (one adapter instance, one list of rule objects) that can be called on
     several graphs; close() unregisters the native user rules"""
 
-    def __init__(self, ad, raise_flag, rules, fresh_adapter=False, via='direct'):
-        self.log, self.made, self.cur, self.family = [], [], [None], {}
+    def __init__(self, ad, raise_flag, rules, fresh_adapter=False, via='direct', travel='none'):
+        self.log, self.made, self.cur, self.family = CALL_LOG, [], CURRENT, {}
+        del CALL_LOG[:]
+        CURRENT[1] = ad
         if rules == 'DEFAULT':
             real = vr.DEFAULT_DAG_RULES
         else:
@@ -448,7 +555,12 @@ class Session:
                                        self.family)
                     self.made.append(f)
                     real.append(f)
-        adapter = ADAPTERS[ad]() if fresh_adapter else adapter_of(ad)
+        adapter = ADAPTERS[ad]() if (fresh_adapter or travel != 'none') else adapter_of(ad)
+        # the adapter / the whole verifier travels: to a worker process (pickle) or with a deep copy of its owner
+        if travel == 'pickle-adapter':
+            adapter = pickle.loads(pickle.dumps(adapter))
+        elif travel == 'deepcopy-adapter':
+            adapter = deepcopy(adapter)
         if via == 'direct':
             self.verifier = GraphVerifier(real, adapter=adapter, raise_on_failure=raise_flag)
         else:
@@ -462,6 +574,12 @@ class Session:
                 params = GraphGenerationParams(adapter=adapter,
                                                rules_for_constraint=list(real) if via == 'params-list' else tuple(real))
             self.verifier = params.verifier
+
+    def travel(self, how):
+        if how == 'pickle':
+            self.verifier = pickle.loads(pickle.dumps(self.verifier))
+        elif how == 'deepcopy':
+            self.verifier = deepcopy(self.verifier)
 
     def call(self, graph):
         """returns {'verdict': ..., 'calls': [[idx, arg description]]} for this call"""
@@ -486,11 +604,13 @@ class Session:
             reg.unregister_native(f)
 
 
-def observe(graph, ad, raise_flag, rules, via='direct', debug=False):
-    """a fresh GraphVerifier called once (debug: with the GOLEM logger at DEBUG)"""
+def observe(graph, ad, raise_flag, rules, via='direct', debug=False, travel='none'):
+    """a fresh GraphVerifier called once (debug: with the GOLEM logger at DEBUG; travel: the verifier or its
+    adapter went through pickle / deepcopy before use)"""
     with golem_logging_at_debug(debug):
-        sess = Session(ad, raise_flag, rules, via=via)
+        sess = Session(ad, raise_flag, rules, via=via, travel=travel)
         try:
+            sess.travel(travel)
             return sess.call(graph)
         finally:
             sess.close()
@@ -535,7 +655,7 @@ def c_rules(rules):
 
 
 def c_run(ad, rf, rules, o):
-    return 'R %s %s %s %s [%s]' % (ad, 'T' if rf else 'F', c_rules(rules), o['verdict'],
+    return 'R %s %s %s %s [%s]' % (COQ_AD[ad], 'T' if rf else 'F', c_rules(rules), o['verdict'],
                                    ';'.join('(%d,%s)' % (c[0], c_arg(c[1])) for c in o['calls']))
 
 
@@ -557,11 +677,11 @@ def do_graph(seed, par, gid, all_subsets, n_subsets, n_user):
     runs, texts = [], []
     configs = configs_for(rng, par, all_subsets, n_subsets, n_user, gid)
     drng = graph_rng(seed, gid + (1 << 30))
-    for kind, ad, rf, rules, via in configs:
+    for kind, ad, rf, rules, via, travel in configs:
         debug = drng.random() < 0.25          # a quarter of all runs with the GOLEM logger at DEBUG
-        o = observe(g, ad, rf, rules, via, debug)
+        o = observe(g, ad, rf, rules, via, debug, travel)
         runs.append({'kind': kind, 'adapter': ad, 'raise': rf, 'rules': rules, 'via': via, 'debug': debug,
-                     'observed': o})
+                     'travel': travel, 'observed': o})
         texts.append(c_run(ad, rf, rules, o))
     if structure(g) != [list(p) for p in par]:
         raise RuntimeError('verification changed the graph %r into %r' % (par, structure(g)))
@@ -576,10 +696,11 @@ def stats_of(par, runs, acc):
         acc['n'] += 1
         nontrivial = n >= 2 and (r['rules'] == 'DEFAULT' or len(r['rules']) > 0 or r.get('via', 'direct') != 'direct')
         if nontrivial:
-            key = repr((gkey, r['adapter'], r['raise'], r['rules'], r.get('via', 'direct'), bool(r.get('debug'))))
+            key = repr((gkey, r['adapter'], r['raise'], r['rules'], r.get('via', 'direct'), bool(r.get('debug')),
+                        r.get('travel', 'none')))
             acc['keys'].add(hashlib.sha1(key.encode()).hexdigest()[:16])
         facts = [('nodes', n), ('config', r['kind']), ('adapter', r['adapter']), ('verifier_from', r.get('via', 'direct')),
-                 ('logger_at_debug', bool(r.get('debug'))),
+                 ('logger_at_debug', bool(r.get('debug'))), ('verifier_travelled', r.get('travel', 'none')),
                  ('raise_on_failure', r['raise']), ('verdict', r['observed']['verdict'])]
         if r['rules'] != 'DEFAULT':
             for q in r['rules']:
@@ -653,7 +774,8 @@ def evaluate(ctx, group, items, shard):
     hit = set()
     for (par, r), (ag, ho) in zip(owners, rr):
         case = {'graph': par, 'adapter': r['adapter'], 'raise_on_failure': r['raise'], 'rules': r['rules'],
-                'via': r.get('via', 'direct'), 'debug': bool(r.get('debug')), 'observed': r['observed']}
+                'via': r.get('via', 'direct'), 'debug': bool(r.get('debug')), 'travel': r.get('travel', 'none'),
+                'observed': r['observed']}
         if not ho:
             hit.add(repr(par))
             ctx.violate(group, case, 'verdict / rule argument contradicts the structural conditions of the '
@@ -793,7 +915,7 @@ def observe_sequence(case):
 
 def c_seq(case, obs):
     return '(%s, %s, %s,\n [%s])' % (
-        case['adapter'], 'T' if case['raise_on_failure'] else 'F', c_rules(case['rules']),
+        COQ_AD[case['adapter']], 'T' if case['raise_on_failure'] else 'F', c_rules(case['rules']),
         ';\n  '.join('(%s, O %s [%s])' % (c_dg(item['graph']), o['verdict'],
                                          ';'.join('(%d,%s)' % (c[0], c_arg(c[1])) for c in o['calls']))
                      for item, o in zip(case['sequence'], obs)))
@@ -916,7 +1038,7 @@ def observe_mutation(case, calls=2):
 
 def c_mut(case, obs):
     return '(%s, %s, %s, %s,\n [%s])' % (
-        c_dg(case['graph']), case['adapter'], 'T' if case['raise_on_failure'] else 'F', c_rules(case['rules']),
+        c_dg(case['graph']), COQ_AD[case['adapter']], 'T' if case['raise_on_failure'] else 'F', c_rules(case['rules']),
         ';\n  '.join('M (O %s [%s]) %s %s' % (o['verdict'], ';'.join('(%d,%s)' % (c[0], c_arg(c[1])) for c in o['calls']),
                                              c_dg(o['final']), 'T' if o['renamed'] else 'F') for o in obs))
 
@@ -1111,7 +1233,7 @@ def replay(ctx, payload):
     for case in todo:
         par = case['graph']
         o = observe(build(par), case['adapter'], case['raise_on_failure'], case['rules'], case.get('via', 'direct'),
-                    bool(case.get('debug')))
+                    bool(case.get('debug')), case.get('travel', 'none'))
         texts.append(c_case(par, [c_run(case['adapter'], case['raise_on_failure'], case['rules'], o)]))
         c = dict(case)
         c['observed'] = o
